@@ -305,6 +305,71 @@ func ruleSpecClosureEnv(c *Ctx, r *R) {
 	if n == 0 {
 		r.undecided("sites", "-", "no function-object creation in the evaluator entry")
 	}
+	// Declaration binding instantiation (10.5 step 5, clause 13 FunctionDeclaration): the function object is created with
+	// the VariableEnvironment as its scope. Only a named function *expression* gets an environment of its own holding
+	// its name; a declaration that is evaluated like one closes over a private copy of its binding.
+	entries := map[*ssa.Function]bool{}
+	for _, e := range evaluatorEntries(c) {
+		entries[e] = true
+	}
+	nDecl := 0
+	for _, fn := range c.AllSrcFuncs("") {
+		binder := false
+		for _, p := range fn.Params {
+			if sl, ok := p.Type().Underlying().(*types.Slice); ok {
+				if pt, ok := sl.Elem().(*types.Pointer); ok && typeIs(pt.Elem(), ottoPath, "nodeFunctionLiteral") {
+					binder = true
+				}
+			}
+		}
+		if !binder || fn.Parent() != nil {
+			continue
+		}
+		for _, b := range fn.Blocks {
+			for _, ins := range b.Instrs {
+				call, ok := ins.(*ssa.Call)
+				if !ok {
+					continue
+				}
+				callee := call.Call.StaticCallee()
+				switch {
+				case entries[callee]:
+					for _, a := range call.Call.Args {
+						if mi, ok := a.(*ssa.MakeInterface); ok {
+							if pt, ok := mi.X.Type().(*types.Pointer); ok && typeIs(pt.Elem(), ottoPath, "nodeFunctionLiteral") {
+								nDecl++
+								r.bad("function-declaration:"+ssaFuncName(fn), c.Pos(instrPos(ins)), ssaFuncName(fn)+" instantiates a function declaration by evaluating it as an expression: the evaluator gives every named function literal a declaration environment of its own that binds the name (correct for `var g = function f(){}` only), so inside a declared function its own name is a private binding - `function init(){ init = function(){ return 2 }; return 1 } init(); init()` returns 1 twice, and a memoising wrapper assigned over a recursive function is bypassed (ES5 13: a FunctionDeclaration is created with the VariableEnvironment as Scope)")
+							}
+						}
+					}
+				case callee == mk:
+					nDecl++
+					env := call.Call.Args[2]
+					okEnv := false
+					var chk func(v ssa.Value, d int) bool
+					chk = func(v ssa.Value, d int) bool {
+						if d > 5 {
+							return false
+						}
+						switch x := v.(type) {
+						case *ssa.UnOp:
+							return isFieldAddr(x.X, "scope", "variable")
+						case *ssa.MakeInterface:
+							return chk(x.X, d+1)
+						case *ssa.ChangeInterface:
+							return chk(x.X, d+1)
+						}
+						return false
+					}
+					okEnv = chk(env, 0)
+					r.check(okEnv, "function-declaration:"+ssaFuncName(fn), c.Pos(instrPos(ins)), "declared functions are created with scope.variable (the VariableEnvironment) as their scope", "a function declaration is closed over something other than the VariableEnvironment (scope.variable) of the running context (ES5 10.5 step 5, 13)")
+				}
+			}
+		}
+	}
+	if nDecl == 0 {
+		r.undecided("declaration-sites", "-", "no function-declaration instantiation found (a function taking []*nodeFunctionLiteral that creates function objects)")
+	}
 }
 
 func envFromLexical(v ssa.Value, d int) bool {
